@@ -133,6 +133,7 @@ func DrawParams(ch Chooser, prof Profile) Params {
 	p.Storage = StorageKind(weighted(ch, "storage", sw))
 	p.KeepLastAppResp = ch.Intn(4, "keepLastAppResp") != 0
 	p.RestartTicks = ch.Intn(4, "restartTicks") != 0
+	p.RealCtor = ch.Intn(64, "realCtor") == 0
 	return p
 }
 
@@ -186,6 +187,17 @@ func (g *Gen) upRep(label string) *Replica {
 		return nil
 	}
 	return ups[g.Ch.Intn(len(ups), label)]
+}
+
+// leaderOrUp prefers the current leader (60%) as the target of a proposal: production
+// clients send to the leader; any replica is allowed (followers forward or drop).
+func (g *Gen) leaderOrUp() *Replica {
+	if chance(g.Ch, 60, "toleader") {
+		if l := g.S.Leader(); l != nil {
+			return l
+		}
+	}
+	return g.upRep("who")
 }
 
 func (g *Gen) cut(n int) int {
@@ -386,13 +398,13 @@ func (g *Gen) Action() {
 			s.Dup(g.Ch.Intn(len(s.Net), "msg"))
 		}
 	case actPropose:
-		r := g.upRep("who")
+		r := g.leaderOrUp()
 		if r != nil {
 			s.Propose(r, g.payloadSizes[g.Ch.Intn(len(g.payloadSizes), "size")])
 			g.maybeStep(r)
 		}
 	case actConf:
-		r := g.upRep("who")
+		r := g.leaderOrUp()
 		if r != nil {
 			g.confAction(r)
 			g.maybeStep(r)
@@ -557,7 +569,7 @@ func (g *Gen) electPhase() {
 	// Figure-8 shaped bias: return to the leader before last, with a swing voter that
 	// led neither of the last two phases
 	var swing *Replica
-	if len(g.lastLeaders) >= 2 && chance(g.Ch, 45, "alternate") {
+	if len(g.lastLeaders) >= 2 && chance(g.Ch, 55, "alternate") {
 		c = s.Rep(g.lastLeaders[len(g.lastLeaders)-2])
 		if c != nil && c.Removed {
 			c = nil
@@ -592,12 +604,19 @@ func (g *Gen) electPhase() {
 			c = cands[g.Ch.Intn(len(cands), "cand")]
 		}
 	}
+	if c.Up && g.isLeader(c) && chance(g.Ch, 80, "bouncestale") {
+		// a leader of an earlier phase that was cut off ignores Campaign(); bounce it
+		s.Crash(c, g.cut)
+	}
 	if !c.Up {
 		s.Restart(c, chance(g.Ch, g.keepEngPct, "keepengine"))
 		if !c.Up {
 			return
 		}
 		g.plainStep(c)
+		for j := 0; j < 6 && c.Up && c.Dirty; j++ {
+			g.plainStep(c)
+		}
 	}
 	// quorum from the candidate's own view of the voters (falls back to everybody)
 	view := s.Peek(c).Voters
@@ -621,12 +640,24 @@ func (g *Gen) electPhase() {
 		j := g.Ch.Intn(i+1, "perm")
 		perm[i], perm[j] = perm[j], perm[i]
 	}
-	for _, id := range perm {
-		if len(set) >= need {
-			break
-		}
-		if r := s.Rep(id); r != nil && !r.Removed {
-			set[id] = true
+	// the leader of the previous phase has the longest log and tends to refuse its vote:
+	// mostly fill the quorum with others first
+	var prevLead uint64
+	if n := len(g.lastLeaders); n > 0 {
+		prevLead = g.lastLeaders[n-1]
+	}
+	avoid := prevLead != 0 && chance(g.Ch, 65, "avoidprev")
+	for pass := 0; pass < 2; pass++ {
+		for _, id := range perm {
+			if len(set) >= need {
+				break
+			}
+			if pass == 0 && avoid && id == prevLead {
+				continue
+			}
+			if r := s.Rep(id); r != nil && !r.Removed {
+				set[id] = true
+			}
 		}
 	}
 	for id := uint64(1); int(id) <= n; id++ {
@@ -692,7 +723,7 @@ func (g *Gen) electPhase() {
 		s.Propose(c, g.payloadSizes[g.Ch.Intn(len(g.payloadSizes), "size")])
 		g.plainStep(c)
 	}
-	k := pick(g.Ch, "ndeliver", 0, 0, 0, 0, 1, 2, 3, 4, 4, 4, 5, 5, 6, 7, 8, 10, 12, 16)
+	k := pick(g.Ch, "ndeliver", 0, 0, 0, 0, 0, 0, 1, 2, 3, 4, 4, 4, 4, 4, 5, 6, 8, 10, 12, 16)
 	g.deliverWithin(set, k, func() bool { return !c.Up })
 	if c.Up && chance(g.Ch, 55, "crashleader") {
 		if chance(g.Ch, 25, "atstage") {
@@ -941,9 +972,42 @@ func (g *Gen) snapshotCatchup() {
 	if !lag.Up && chance(g.Ch, 80, "restartlagger") {
 		s.Restart(lag, chance(g.Ch, g.keepEngPct, "keepengine"))
 	}
-	g.Rounds(3+g.Ch.Intn(2*s.P.ElectionTick, "rounds2"), nil)
+	// A copy of the MsgSnap for the lagger may be delayed by the network for a long time:
+	// it is taken out of the multiset here and put back at the end, after the lagger has
+	// moved on (and possibly compacted its own log beyond that snapshot).
+	var delayed []Flight
+	delay := chance(g.Ch, 50, "delaysnapcopy")
+	for round := 0; round < 3+2*s.P.ElectionTick; round++ {
+		g.Rounds(1, nil)
+		if delay && len(delayed) == 0 {
+			for i := range s.Net {
+				if s.Net[i].M.Type == pb.MsgSnap && s.Net[i].M.To == lag.ID {
+					s.Dup(i)
+					delayed = append(delayed, s.removeFlight(len(s.Net)-1))
+					s.Note("a duplicate of the MsgSnap is delayed")
+					break
+				}
+			}
+		}
+	}
 	g.flushReports()
 	g.Rounds(2, nil)
+	if len(delayed) > 0 {
+		if lead.Up && g.isLeader(lead) {
+			np := 1 + g.Ch.Intn(3, "nprop2")
+			for i := 0; i < np && lead.Up; i++ {
+				s.Propose(lead, g.payloadSizes[g.Ch.Intn(len(g.payloadSizes), "size")])
+				g.plainStep(lead)
+			}
+			g.Rounds(2, nil)
+		}
+		if lag.Up && s.CanSnapshot(lag) && chance(g.Ch, 70, "laggersnap") {
+			s.Snapshot(lag, 0)
+		}
+		s.Note("the delayed MsgSnap arrives")
+		s.Net = append(s.Net, delayed...)
+		g.Rounds(2, nil)
+	}
 }
 
 func (g *Gen) flushReports() {
@@ -995,8 +1059,8 @@ func (g *Gen) Run() {
 	}
 	steps := g.Prof.MinSteps + g.Ch.Intn(g.Prof.MaxSteps-g.Prof.MinSteps+1, "steps")
 	// a case should not spend its whole budget electing its first leader
-	if chance(g.Ch, 70, "warmup") {
-		g.Rounds(1+g.Ch.Intn(2*g.S.P.ElectionTick, "warm"), nil)
+	if chance(g.Ch, 75, "warmup") {
+		g.Rounds(2*g.S.P.ElectionTick+g.Ch.Intn(2*g.S.P.ElectionTick, "warm"), nil)
 	}
 	for k := 0; k < steps; k++ {
 		if g.Prof.MacroPct > 0 && chance(g.Ch, g.Prof.MacroPct, "macro?") {
